@@ -20,6 +20,9 @@
 (*            called -- or, if no registration of the name returned before *)
 (*            the lookup was called, possibly what the name denoted at the *)
 (*            start (the empty decoration for a name never registered);    *)
+(*            a lookup during which no registration of the name was in     *)
+(*            progress settles which registration is the latest: every     *)
+(*            later lookup must agree with it;                             *)
 (*   listing  sorted, duplicate-free, contains every name whose first      *)
 (*            registration returned before the listing was called and all  *)
 (*            built-ins, and nothing that no registration begun before the *)
